@@ -257,7 +257,7 @@ struct LqScenario : Scenario {
         static const char* sf[] = {"storm8", "tupler", "tuplerm1", "tuple1", "digitxm1", "tuple0"};
         for (int i = 0; i < n; i++) {
             int k = r.range(0, 11); int64_t ss = (int64_t) (r.next() >> 1);
-            if (k == 0) p.ops.push_back({"ID", {}, {rhex(r, 48)}});
+            if (k == 0) p.ops.push_back({"ID", {}, {r.chance(1, 5) ? long_walk_digest((unsigned) r.below(4)) : rhex(r, 48)}});
             else if (k == 1) { Op o{"MSKHOP", {r.chance(1, 2), r.chance(1, 2)}, {}}; int m = r.range(0, 6); if (m == 1) o.s.push_back(strf("flip:%d:%d", r.range(28, 31), r.range(4, 7))); else if (m == 5) o.s.push_back("val:" + glv_code(r)); else if (m == 6) o.s.push_back("val:" + value_codes()[r.below(value_codes().size())]); else if (m == 2) o.s.push_back("ge_r"); else if (m == 3) o.s.push_back("max"); else if (m == 4) o.s.push_back(strf("set:31:%d", r.range(0x74, 0xFF))); p.ops.push_back(o); }
             else if (k <= 3) p.ops.push_back({"KEYGEN", {(int64_t) r.below(8)}, {}});
             else if (k == 6 && r.chance(1, 12)) p.ops.push_back({"ENCHUGE", {ss, (int64_t) r.below(8)}, {}});
